@@ -272,6 +272,7 @@ func TestVerifC04(t *testing.T) {
 				}()
 				fmt.Fprintf(w, "%s %s\n", id, c04Sess(fs))
 			}()
+			w.Flush() // a goroutine of a session may take the process down: keep what has been observed so far
 		case "PRIM", "PRIMOPEN":
 			key := vfUnhex(fs[3])
 			nonce := vfUnhex(fs[4])
